@@ -13,7 +13,7 @@
   a point outside every column yields nothing               outside_gives_none (every search aid)
   same result whichever aid: none / guess / bounds /         methods_agree, plain_agrees_with_exhaustive
     column subset containing the answer
-  ... / quadtree                                            quadtree_agrees_or_none   (partial: see below)
+  ... / quadtree                                            quadtree_agrees_or_none_partial, quadtree_search_complete_partial
   containment and the bounding-box pre-filter               in_polygon_in_bounding_rectangle (crossing parity)
   quadtree structure                                        quadtree_partition, quadtree_leaf_contains_point,
                                                             quadtree_leaf_exists
@@ -21,9 +21,11 @@
                                                             reported_block_contains_point, containing_block_is_reported
 
   NOT PROVED (stated here, checked only by the correspondence facets and the exact oracle):
-  * quadtree completeness — that `qtree.search` *finds* the containing column.  It is false in general
-    (a domain with a hole between the leaf's elements and the point: `search_wave` only walks through
-    neighbours whose bounding boxes meet the leaf rectangle), so only "agrees or returns None" is proved.
+  * quadtree completeness in the plane — that `qtree.search` *finds* the containing column for every
+    geometry of the listed classes.  It is false in general (two islands: `search_wave` only walks through
+    neighbours whose bounding boxes meet the leaf rectangle).  Proved instead: "agrees or returns None"
+    unconditionally, and "finds it" whenever the column is reachable in the neighbour graph that
+    `search_wave` explores (a breadth-first-search completeness theorem); the planar step is left out.
   * every clause about `column_track` (Model/Track.lean): columns crossed, order, entry/exit points,
     abutting segments, lengths.  The model is executable and compared with the code on every run; the
     clauses are evaluated by exact clipping in the harness.
@@ -139,6 +141,25 @@ theorem quadtree_leaf_exists (p : Pt) (t : QTree) :
     | false => rw [leaf_none p t hb] at hl; cases hl
   · exact leaf_some p t
 
+/-- **Completeness of the quadtree search relative to the neighbour graph** (`_partial`: the hypothesis
+    `Reachable` is about the column graph, not about the plane).  If the containing column can be
+    reached from an element of the point's leaf by steps to neighbours that are elements of the tree
+    and whose bounding boxes meet the leaf rectangle (`AvoidReach … []`, the relation `search_wave`
+    explores), then the search with a quadtree — and any guess, column subset, and bounds holding the
+    point — returns that column, i.e. agrees with plain search.  What is *not* proved is the planar
+    fact that such a chain exists whenever the straight segment from a leaf element's centre to the
+    point stays inside the domain; `islands` below shows it can fail otherwise.  The harness evaluates
+    `Reachable` on every explored point (evidence: `hypotheses_met`). -/
+theorem quadtree_search_complete_partial (g : Geo) (pos : Pt) (c : Nat) (a : Aids) (q : QT) (l : QTree)
+    (hu : UniqueAt g pos) (hc : g.containsPoint c pos = true)
+    (hq : a.qtree = some q) (hb : inBounds pos a.bounds = true)
+    (hl : q.root.leaf pos = some l)
+    (hr : ∃ e ∈ l.elements, AvoidReach g q.all l.bounds c [] e) :
+    columnContainingPoint g pos a = some c := by
+  unfold columnContainingPoint
+  rw [hb, hq]
+  exact guessSearch_complete_qtree hu hc hl hr
+
 /-- `search_wave` in the model is given `len(all_elements) + len(elements) + 1` units of fuel; giving
     it any more changes nothing, i.e. the model's loop always ends because the `todo` list empties
     or the column is found — as the Python `while` loop does — never because the fuel ran out. -/
@@ -247,6 +268,19 @@ example : inPolygon (50, 50) [(0, 0), (100, 1/1000000000), (100, 100), (0, 100)]
 example : (buildQ demo quadFuel ((0, 0), (2, 1)) [0, 1]).map (fun t => t.child.map QTree.elements) = some [[0], [1]] := by
   decide +kernel
 example : (demoQT.map fun q => (q.root.leaf (3/2, 1/4)).map QTree.elements) = some (some [1]) := by decide +kernel
+-- quadtree_search_complete_partial: its hypotheses are met on `demo` with the tree the constructor builds
+-- (written out here; the leaf of the point holds column 1 itself)
+def demoTree : QTree :=
+  .node ((0, 0), (2, 1)) [0, 1] [.node ((0, 0), (1, 1/2)) [0] [], .node ((1, 0), (2, 1/2)) [1] []]
+example : ∃ l, demoTree.leaf (3/2, 1/4) = some l ∧ ∃ e ∈ l.elements, AvoidReach demo [0, 1] l.bounds 1 [] e := by
+  have h1 : inRectangle ((3/2 : Rat), (1/4 : Rat)) ((0, 0), (2, 1)) = true := by decide +kernel
+  have h2 : inRectangle ((3/2 : Rat), (1/4 : Rat)) ((0, 0), (1, 1/2)) = false := by decide +kernel
+  have h3 : inRectangle ((3/2 : Rat), (1/4 : Rat)) ((1, 0), (2, 1/2)) = true := by decide +kernel
+  refine ⟨.node ((1, 0), (2, 1/2)) [1] [], ?_, 1, by simp [QTree.elements], AvoidReach.base (by simp)⟩
+  simp only [demoTree, QTree.leaf, leafList, h1, h2, h3, if_true, Bool.false_eq_true, if_false]
+example : columnContainingPoint demo (3/2, 1/4) { qtree := some ⟨demoTree, [0, 1]⟩, guess := some 0 } = some 1 := by decide +kernel
+example : (demoQT.map fun q => q.root.child.map fun c => (c.bounds, c.elements)) =
+    some [(((0, 0), (1, 1/2)), [0]), (((1, 0), (2, 1/2)), [1])] := by decide +kernel
 -- why quadtree completeness is not a theorem: two islands (the column between them deleted); the leaf of
 -- a point of the right island holds only the left column, which has no neighbours: plain search finds
 -- column 1, the quadtree search returns None.  (The real code does the same: corpus case in the harness.)
